@@ -88,7 +88,7 @@ def open_session(w, role, deflate, limit=LIMIT):
                              connect_kwargs={"max_message_size": limit})
 
 
-def run_case(role, deflate, vname, nbefore, nafter, separately, boundary=False):
+def run_case(role, deflate, vname, nbefore, nafter, separately, boundary=False, cut=None):
     with World() as w:
         # over-long control frames must be refused because they are control frames, not because they
         # exceed max_message_size: run them with a generous message limit
@@ -117,10 +117,16 @@ def run_case(role, deflate, vname, nbefore, nafter, separately, boundary=False):
                 if boundary:
                     want.append(text)
             if separately:
-                for c in chunks:
+                for ci, c in enumerate(chunks):
                     if s.closed:
                         break
-                    s.feed(c)
+                    if cut is not None and ci == nbefore and 0 < cut < len(c):
+                        s.feed(c[:cut])          # the violating frame itself arrives in two TCP segments
+                        if s.closed:
+                            break
+                        s.feed(c[cut:])
+                    else:
+                        s.feed(c)
             else:
                 s.feed(b"".join(chunks))
             w.pump()
@@ -204,6 +210,9 @@ class C15(Check):
                         if k % nsl != sl:
                             continue
                         self.one(role, deflate, vname, nbefore, nafter, sep, False, st)
+                        if tier == "thorough" and sep and nbefore == 1 and nafter == 2:
+                            for cut in (1, 2, 3, 5, 6, 7, 9, 11):
+                                self.one(role, deflate, vname, nbefore, nafter, sep, False, st, cut)
         for bname in sorted(boundaries(deflate)):
             for nbefore in (0, 1):
                 for sep in (False, True):
@@ -212,9 +221,9 @@ class C15(Check):
                         continue
                     self.one(role, deflate, bname, nbefore, 1, sep, True, st)
 
-    def one(self, role, deflate, vname, nbefore, nafter, sep, boundary, st):
+    def one(self, role, deflate, vname, nbefore, nafter, sep, boundary, st, cut=None):
         try:
-            o = run_case(role, deflate, vname, nbefore, nafter, sep, boundary)
+            o = run_case(role, deflate, vname, nbefore, nafter, sep, boundary, cut)
         except Exception as e:
             import traceback
             tb = traceback.extract_tb(e.__traceback__)[-1]
@@ -224,7 +233,7 @@ class C15(Check):
             return
         st.ev()
         st.transitions += nbefore + nafter + 1
-        key = h((role, deflate, vname, nbefore, nafter, sep))
+        key = h((role, deflate, vname, nbefore, nafter, sep, cut))
         st.states.add(key)
         if not boundary:
             st.nontrivial.add(key)
@@ -236,10 +245,12 @@ class C15(Check):
             st.violation("%s:%s:%s" % (role, vname, sig),
                          "role=%s deflate=%r violation=%s after %d valid, before %d valid, frame_by_frame=%r: %s"
                          % (role, deflate, vname, nbefore, nafter, sep, msg),
-                         {"role": role, "deflate": deflate, "v": vname, "before": nbefore, "after": nafter, "sep": sep, "boundary": boundary})
+                         {"role": role, "deflate": deflate, "v": vname, "before": nbefore, "after": nafter, "sep": sep, "boundary": boundary,
+                          "cut": cut})
 
     def replay(self, case):
-        o = run_case(case["role"], case["deflate"], case["v"], case["before"], case["after"], case["sep"], case["boundary"])
+        o = run_case(case["role"], case["deflate"], case["v"], case["before"], case["after"], case["sep"], case["boundary"],
+                     case.get("cut"))
         return "%r\nverdict %r" % (o, judge(o, case["boundary"]))
 
 
